@@ -6,14 +6,15 @@
 //	    implementation and compared with the leaf-interval oracle of oracle.go.
 //	[T] the same calls (plus un-normalized / unsorted inputs and the single-id leaf functions)
 //	    are emitted as Coq terms comparing Model/CellUnion.v and Gen/CellID.v with the observed
-//	    results.
+//	    results; CellIndex.Build, histories of the range and contents iterators and
+//	    s2intersect.Find are compared with Model/CellIndex.v and Model/Intersect.v.
 package main
 
 import (
 	"verifharness/internal/vkit"
 )
 
-func main() { vkit.Main("C11", []string{"Gen.CellID", "Model.CellUnion"}, run) }
+func main() { vkit.Main("C11", []string{"Gen.CellID", "Model.CellUnion", "Model.CellIndex", "Model.Intersect"}, run) }
 
 func run(c *vkit.Collector, rng *vkit.Rng, budget int) {
 	// vkit.NewRng(k) and NewRng(k+1) are the SAME splitmix64 stream shifted by one output, and
@@ -25,9 +26,11 @@ func run(c *vkit.Collector, rng *vkit.Rng, budget int) {
 	selfTestOracle(rng.U64)
 	g := &G{r: rng, c: c}
 	t := &T{c: c, used: map[string]int{}, cap: map[string]int{
-		"union": 230 * budget, "union-big": 30 * budget, "invalid-union": 60 * budget,
+		"union": 200 * budget, "union-big": 30 * budget, "invalid-union": 45 * budget,
 		"pair-norm": 110 * budget, "pair-raw": 150 * budget, "pair-norm-big": 10 * budget, "pair-raw-big": 15 * budget,
-		"denorm": 70 * budget, "range": 110 * budget, "maxtile": 400 * budget,
+		"denorm": 60 * budget, "range": 110 * budget, "maxtile": 250 * budget,
+		"ci-build": 130 * budget, "ci-build-big": 15 * budget, "ci-range": 260 * budget, "ci-access": 15 * budget,
+		"ci-contents": 260 * budget, "find": 80 * budget, "find-big": 8 * budget,
 	}}
 	s := &S{c: c, g: g, t: t}
 
